@@ -20,7 +20,7 @@ use std::sync::{Arc, Mutex};
 fn make_batches(sv: usize, nb: usize, seed: u64) -> (SchemaRef, Vec<RecordBatch>) {
     let mut r = Rng::new(seed ^ 0xC18);
     let alphabet: Vec<&str> = vec!["a", "b", "Z", "0", " ", ",", "\"", "\\", "\n", "é", "{", "}", "PAR1", "ARROW1", ":"];
-    let mut rstr = |r: &mut Rng| -> String {
+    let rstr = |r: &mut Rng| -> String {
         let n = r.below(7);
         (0..n).map(|_| *r.pick(&alphabet)).collect()
     };
@@ -54,7 +54,8 @@ fn make_batches(sv: usize, nb: usize, seed: u64) -> (SchemaRef, Vec<RecordBatch>
             ],
             2 => vec![
                 Arc::new(BooleanArray::from((0..total).map(|_| if r.chance(1, 4) { None } else { Some(r.bool()) }).collect::<Vec<_>>())),
-                Arc::new(StringArray::from((0..total).map(|_| rstr(&mut r)).collect::<Vec<_>>())),
+                // never empty: CSV cannot represent an empty string in a non-nullable column (it reads back as null)
+                Arc::new(StringArray::from((0..total).map(|_| { let mut t = rstr(&mut r); if t.is_empty() { t.push('q'); } t }).collect::<Vec<_>>())),
                 Arc::new(Int32Array::from((0..total).map(|_| if r.chance(1, 3) { None } else { Some(r.range(-5, 5) as i32) }).collect::<Vec<_>>())),
             ],
             3 => {
@@ -221,39 +222,42 @@ fn parquet_props(s: &Spec) -> parquet::file::properties::WriterProperties {
 
 /// Drives the real writer over `sink`; true = every API call returned Ok.  Stops at the first Err, like a caller
 /// using `?`.  `marker` receives the Avro OCF sync marker.
-fn drive(s: &Spec, schema: &SchemaRef, batches: &[RecordBatch], sink: FaultSink, marker: &mut Option<[u8; 16]>) -> bool {
+fn drive(s: &Spec, schema: &SchemaRef, batches: &[RecordBatch], sink: FaultSink, marker: &mut Option<[u8; 16]>, n_api: &mut usize) -> bool {
     macro_rules! t { ($e:expr) => { match $e { Ok(v) => v, Err(_) => return false } }; }
+    let probe = sink.clone();
+    // evaluated while the writer is still alive: sink calls made so far = calls made by API calls
+    let mut done = || { *n_api = probe.0.lock().unwrap().calls; true };
     match s.fmt {
         F_IPC_FILE => {
             let mut w = t!(arrow_ipc::writer::FileWriter::try_new_with_options(sink, schema, ipc_options(s)));
             if s.opt(3) == 1 { w.write_metadata("k", "v"); }
             for b in batches { t!(w.write(b)); if s.opt(4) == 1 { t!(w.flush()); } }
             t!(w.finish());
-            true
+            done()
         }
         F_IPC_FILE_BUF => {
             let mut w = t!(arrow_ipc::writer::FileWriter::try_new_buffered(sink, schema));
             for b in batches { t!(w.write(b)); if s.opt(4) == 1 { t!(w.flush()); } }
             if s.opt(5) == 1 { t!(w.into_inner()); } else { t!(w.finish()); }
-            true
+            done()
         }
         F_IPC_STREAM => {
             let mut w = t!(arrow_ipc::writer::StreamWriter::try_new_with_options(sink, schema, ipc_options(s)));
             for b in batches { t!(w.write(b)); if s.opt(4) == 1 { t!(w.flush()); } }
             t!(w.finish());
-            true
+            done()
         }
         F_IPC_STREAM_BUF => {
             let mut w = t!(arrow_ipc::writer::StreamWriter::try_new_buffered(sink, schema));
             for b in batches { t!(w.write(b)); if s.opt(4) == 1 { t!(w.flush()); } }
             if s.opt(5) == 1 { t!(w.into_inner()); } else { t!(w.finish()); }
-            true
+            done()
         }
         F_PARQUET => {
             let mut w = t!(parquet::arrow::ArrowWriter::try_new(sink, schema.clone(), Some(parquet_props(s))));
             for b in batches { t!(w.write(b)); if s.opt(6) == 1 { t!(w.flush()); } }
             if s.opt(6) == 2 { t!(w.finish()); } else { t!(w.close()); }
-            true
+            done()
         }
         F_PARQUET_LOW => {
             use parquet::data_type::{ByteArray, ByteArrayType, Int32Type};
@@ -281,7 +285,7 @@ fn drive(s: &Spec, schema: &SchemaRef, batches: &[RecordBatch], sink: FaultSink,
                 t!(rg.close());
             }
             t!(w.close());
-            true
+            done()
         }
         F_CSV => {
             let mut w = arrow_csv::WriterBuilder::new().with_header(s.opt(0) == 1).build(sink);
@@ -293,19 +297,19 @@ fn drive(s: &Spec, schema: &SchemaRef, batches: &[RecordBatch], sink: FaultSink,
                 }
             }
             if s.opt(1) == 1 { let _ = w.into_inner(); }
-            true
+            done()
         }
         F_JSON_LINES => {
             let mut w = arrow_json::WriterBuilder::new().with_explicit_nulls(s.opt(0) == 1).build::<_, arrow_json::writer::LineDelimited>(sink);
             for b in batches { t!(w.write(b)); }
             t!(w.finish());
-            true
+            done()
         }
         F_JSON_ARRAY => {
             let mut w = arrow_json::WriterBuilder::new().with_explicit_nulls(s.opt(0) == 1).build::<_, arrow_json::writer::JsonArray>(sink);
             for b in batches { t!(w.write(b)); }
             t!(w.finish());
-            true
+            done()
         }
         F_AVRO_OCF => {
             use arrow_avro::compression::CompressionCodec;
@@ -315,25 +319,26 @@ fn drive(s: &Spec, schema: &SchemaRef, batches: &[RecordBatch], sink: FaultSink,
             *marker = w.sync_marker().copied();
             for b in batches { t!(w.write(b)); }
             t!(w.finish());
-            true
+            done()
         }
         F_AVRO_SOE => {
             let mut w = t!(arrow_avro::writer::AvroStreamWriter::new(sink, schema.as_ref().clone()));
             for b in batches { t!(w.write(b)); }
             t!(w.finish());
-            true
+            done()
         }
         _ => panic!("unknown format"),
     }
 }
 
-struct WriteRun { ok: bool, trace: Vec<i64>, data: Vec<u8>, before: usize, marker: Option<[u8; 16]> }
+struct WriteRun { ok: bool, trace: Vec<i64>, data: Vec<u8>, before: usize, marker: Option<[u8; 16]>, n_api: usize }
 fn write_run(s: &Spec, schema: &SchemaRef, batches: &[RecordBatch], fault: Option<(usize, u8)>) -> WriteRun {
     let sink = FaultSink::new(fault);
     let mut marker = None;
-    let ok = drive(s, schema, batches, sink.clone(), &mut marker); // the writer is dropped inside (Drop may flush)
+    let mut n_api = 0;
+    let ok = drive(s, schema, batches, sink.clone(), &mut marker, &mut n_api); // the writer is dropped inside (Drop may flush)
     let st = sink.0.lock().unwrap();
-    WriteRun { ok, trace: st.trace.clone(), data: st.data.clone(), before: st.before.unwrap_or(st.data.len()), marker }
+    WriteRun { ok, trace: st.trace.clone(), data: st.data.clone(), before: st.before.unwrap_or(st.data.len()), marker, n_api }
 }
 
 /// Avro OCF embeds a random 16-byte sync marker: blank it (at the positions it has in the fault-free output) in
@@ -361,7 +366,7 @@ fn op_wfault(a: &Args) -> Args {
     let pos = mask_positions(&ff.data, ff.marker);
     mask(&mut ff.data, &pos);
     mask(&mut fr.data, &pos);
-    vec![g(if fr.ok { 0 } else { 1 }), gs(&ff.trace), gbytes(&ff.data), gbytes(&fr.data[..fr.before]), gbytes(&fr.data[fr.before..])]
+    vec![vec![BigInt::from(if fr.ok { 0 } else { 1 }), BigInt::from(ff.n_api)], gs(&ff.trace), gbytes(&ff.data), gbytes(&fr.data[..fr.before]), gbytes(&fr.data[fr.before..])]
 }
 
 // ------------------------------------------------------------------------------------------ fault source
@@ -568,7 +573,9 @@ fn op_trunc(a: &Args) -> Args {
         let r = read_all(cls, &s, &schema, file.slice(0..k), None, cap);
         os.push(r.outcome); nbs.push(r.nb as i64); nrs.push(r.rows.len() as i64); hs.push(hash_of(&r.rows));
     }
-    vec![gbytes(&file), gu64s(&prefix_hashes(&rows)), gu64s(&cum), gs(&os), gs(&nbs), gs(&nrs), gu64s(&hs)]
+    // Avro OCF: the header is what the writer emits before the first batch
+    let aux: Vec<usize> = if cls == C_AVRO { vec![write_run(&s, &schema, &[], None).data.len()] } else { vec![] };
+    vec![gbytes(&file), gu64s(&prefix_hashes(&rows)), gu64s(&cum), gs(&aux), gs(&os), gs(&nbs), gs(&nrs), gu64s(&hs)]
 }
 
 fn op_rfault(a: &Args) -> Args {
@@ -624,10 +631,11 @@ fn run_inner(op: &str, a: &Args) -> Option<Args> {
 /// Every case runs on its own thread under a watchdog: a hang is reported as [-1; 9] (the leaked thread is abandoned),
 /// a panic as [-1; 8] — both are property violations ("no panic, no hang").
 pub fn run(op: &str, a: &Args) -> Option<Args> {
+    if op == "c18.pq_tail" || op == "c18.ipc_footer_len" { return run_inner(op, a); }
     let (tx, rx) = std::sync::mpsc::channel();
     let op2 = op.to_string();
     let a2 = a.clone();
-    std::thread::Builder::new().stack_size(16 << 20).spawn(move || {
+    std::thread::Builder::new().stack_size(4 << 20).spawn(move || {
         let r = std::panic::catch_unwind(std::panic::AssertUnwindSafe(|| run_inner(&op2, &a2)));
         let _ = tx.send(r);
     }).expect("spawn");
@@ -705,15 +713,17 @@ pub fn generate(tier: &str, r: &mut Rng, emit: &mut dyn FnMut(Case)) {
         let det = 1;
         // ---- writer faults at every sink call
         for kind in 0..5u8 {
-            let mut ks: Vec<usize> = (0..n).collect();
-            if kind == 0 { ks.push(n); }
-            let budget = if thorough { 400 } else { 60 };
+            // calls made by API calls (calls made later, by Drop, cannot report an error), plus "no fault"
+            let na = ff.n_api.min(n);
+            let mut ks: Vec<usize> = (0..na).collect();
+            let budget = if thorough { 300 } else { 40 };
             if ks.len() > budget {
                 // keep the first and last calls, sample the middle
-                let mut keep: Vec<usize> = (0..8.min(n)).chain(n.saturating_sub(8)..n).collect();
-                while keep.len() < budget { keep.push(r.below(n)); }
+                let mut keep: Vec<usize> = (0..8.min(na)).chain(na.saturating_sub(8)..na).collect();
+                while keep.len() < budget { keep.push(r.below(na)); }
                 keep.sort(); keep.dedup(); ks = keep;
             }
+            if kind == 0 { ks.push(n); }
             for k in ks {
                 let is_flush = ff.trace.get(k) == Some(&-1);
                 if (kind == 2 || kind == 4) && is_flush { continue; }
@@ -757,7 +767,7 @@ pub fn generate(tier: &str, r: &mut Rng, emit: &mut dyn FnMut(Case)) {
             for kind in 0..4u8 {
                 let mut ks: Vec<usize> = (0..ncalls).collect();
                 if kind == 0 { ks.push(ncalls); }
-                let budget = if thorough { 300 } else { 40 };
+                let budget = if thorough { 200 } else { 24 };
                 if ks.len() > budget {
                     let mut keep: Vec<usize> = (0..6.min(ncalls)).chain(ncalls.saturating_sub(6)..ncalls).collect();
                     while keep.len() < budget { keep.push(r.below(ncalls)); }
@@ -778,7 +788,7 @@ pub fn generate(tier: &str, r: &mut Rng, emit: &mut dyn FnMut(Case)) {
             for variant in 0..6 {
                 let mut d = ff.data.clone();
                 match variant {
-                    0 => { let t = d[len - tail..].to_vec(); d.extend(r.bytes(1 + r.below(20))); d.extend(t); }       // garbage + copied tail
+                    0 => { let t = d[len - tail..].to_vec(); let n = 1 + r.below(20); d.extend(r.bytes(n)); d.extend(t); }       // garbage + copied tail
                     1 => { d[len - tail] = d[len - tail].wrapping_add(1); }                                          // length + 1
                     2 => { d[len - tail + 3] = 0x80; }                                                               // huge / negative length
                     3 => { let t = d[len - tail..].to_vec(); d = t; }                                                // tail only
